@@ -23,6 +23,20 @@ def run(chk):
         return
     for v in res["violations"] or []:
         chk.violation(v["sig"], v["desc"], dict(kind="c18", detail=v))
+    # client level: the read timeout the user configures is the one in force (regionservers and the admin client's master)
+    wd2 = vlib.scratch("verif-c18c-")
+    t2 = vlib.go_test("", "^TestVerifC18Client$", env=dict(VERIF_OUT=wd2, VERIF_SEED=str(chk.seed)), timeout=1200, race=True)
+    rf2 = os.path.join(wd2, "c18c_result.json")
+    if not os.path.exists(rf2) or t2["rc"] != 0:
+        v = vlib.classify_panic(t2["out"])
+        if v:
+            chk.violation(v["sig"], v["desc"], dict(kind="panic"))
+            return
+        raise vlib.MachineryError("C18 client-level driver failed:\n" + t2["out"][-3000:])
+    res2 = json.load(open(rf2))
+    for v in res2["violations"] or []:
+        chk.violation(v["sig"], v["desc"], dict(kind="c18-client", detail=v))
+    chk.cov["client_level_scenarios"] = res2["scenarios"]
     n = rcshared.validate_trace(chk, wd, "c18-trace")
     chk.cov["traces_validated_against_impl"] = res["scenarios"]
     chk.cov["events_validated"] = n
